@@ -26,7 +26,7 @@ import (
 )
 
 var families = []string{"steady", "reset-after-k", "neverack-restart", "refuse-then-recover", "restarts-in-a-row", "late-ack",
-	"session-renewal", "blackhole-restart", "stop-with-pending-acks", "wrong-id", "two-outputs-one-faulty", "stop-mid-chunk"}
+	"session-renewal", "blackhole-restart", "stop-with-pending-acks", "wrong-id", "two-outputs-one-faulty", "stop-mid-chunk", "interrupted-recovery", "interrupted-recovery"}
 
 func buildScenarios(c *vkit.Ctx) []e2e.Scenario {
 	var out []e2e.Scenario
